@@ -149,6 +149,50 @@ def attrs_of(mapper):
             "maps": [[k, list(v)] for k, v in mapper.label_maps.items()]}
 
 
+def run_queries(mapper, case):
+    """the public queries of LabelMapper; returns (canonical results, canonical get_isotopomers(), the
+    container objects that were handed out)"""
+    handed, res = [], []
+    for q in case.get("queries") or []:
+        try:
+            if q[0] == "of":
+                r = mapper.get_isotopomer_of(q[1])
+            elif q[0] == "at":
+                ps = q[2]
+                r = mapper.get_isotopomers_of_at_position(q[1], ps[0] if (len(ps) == 1 and q[3:] == ["int"]) else list(ps))
+            else:
+                r = mapper.get_isotopomers_of_with_n_labels(q[1], q[2])
+            handed.append(r)
+            res.append({"ok": list(r)})
+        except Exception as e:  # noqa: BLE001
+            res.append(_exc(e))
+    try:
+        d = mapper.get_isotopomers()
+        isos = {"ok": [[k, list(v)] for k, v in d.items()]}
+        handed += list(d.values())
+        handed.append(d)
+    except Exception as e:  # noqa: BLE001
+        isos = _exc(e)
+    return res, isos, handed
+
+
+def edit_in_place(obj, how):
+    if isinstance(obj, dict):
+        if how in ("clear", "pop") and obj:
+            obj.pop(next(iter(obj)))
+        return
+    if how == "reverse":
+        obj.reverse()
+    elif how == "sort_desc":
+        obj.sort(reverse=True)
+    elif how == "clear":
+        obj.clear()
+    elif how == "pop" and obj:
+        obj.pop(0)
+    elif how == "append":
+        obj.append("junk")
+
+
 def _real_worker(case):
     import warnings
 
@@ -162,15 +206,23 @@ def _real_worker(case):
         return {"build": {"err": ["base:" + type(e).__name__]}}
     import copy
 
+    if case.get("queries") is not None:
+        out["queries"], out["isos"], handed = run_queries(mapper, case)
+        if case.get("mutate"):
+            # the caller does what it likes with the containers the public queries handed out ...
+            for obj in handed:
+                edit_in_place(obj, case["mutate"])
+            # ... the mapper's answers and the model it builds are still those of its label counts and maps
+            out["queries_after"], out["isos_after"], _ = run_queries(mapper, case)
     il = init_arg(case)
     il_keep = copy.deepcopy(il)
     try:
         lm = mapper.build_model(initial_labels=il)
     except Exception as e:  # noqa: BLE001
-        return {"build": _exc(e), "attrs": attrs_of(mapper)}
+        return dict(out, build=_exc(e), attrs=attrs_of(mapper))
     if il != il_keep:
         # the caller's labelling request is not the library's to change (it is typically reused for the next build)
-        return {"build": {"err": ["caller's initial_labels dict was modified by build_model"]}, "attrs": attrs_of(mapper)}
+        return dict(out, build={"err": ["caller's initial_labels dict was modified by build_model"]}, attrs=attrs_of(mapper))
     out["build"] = {"ok": True}
     out["attrs"] = attrs_of(mapper)
     out["rxns"] = canon_rxns([[k, r.args, list(r.stoichiometry.items())] for k, r in lm.get_raw_reactions().items()])
@@ -318,6 +370,61 @@ def spec_derived(case):
     return sorted(out)
 
 
+def spec_queries(case):
+    """the public queries, declaratively: the isotopomers of x / those labelled at every requested position /
+    those with exactly k labels (most significant position first: descending bit strings).  A compound listed
+    with 0 label positions is outside this oracle (entry None: there the Lean model alone is compared) -- the
+    code formats `x__` + empty pattern for it, which names no variable of the labelled model."""
+    lv = lv_of(case)
+    out = []
+    for q in case.get("queries") or []:
+        x = q[1]
+        if x not in lv:
+            out.append({"err": ["KeyError"]})
+            continue
+        n = lv[x]
+        allbits = ["".join(b) for b in it.product("01", repeat=n)]
+        if q[0] == "of":
+            out.append({"ok": iso_names(x, n)})
+        elif q[0] == "at":
+            if any(p >= n for p in q[2]):
+                out.append({"err": ["IndexError"]})
+            elif n == 0:
+                out.append(None)
+            else:
+                out.append({"ok": [x + "__" + b for b in allbits if all(b[p] == "1" for p in q[2])]})
+        elif n == 0:
+            out.append(None)
+        else:
+            out.append({"ok": [x + "__" + b for b in sorted(allbits, reverse=True) if b.count("1") == q[2]]})
+    return out
+
+
+def spec_isos(case):
+    return {"ok": [[x, iso_names(x, n)] for x, n in case["lv"]]}
+
+
+def gen_queries(rng, case):
+    lv = lv_of(case)
+    names = [x for x, _ in case["base"]["vars"]]
+    qs = []
+    for x in rng.sample(names, min(len(names), rng.randint(1, 3))):
+        n = lv.get(x) or 0
+        qs.append(["of", x])
+        r = rng.random()
+        if r < 0.5:
+            ps = sorted(rng.sample(range(n), rng.randint(0, min(n, 2)))) if n else []
+            if rng.random() < 0.1:
+                ps = ps + [n + rng.randint(0, 1)]
+            q = ["at", x, ps]
+            if len(ps) == 1 and rng.random() < 0.5:
+                q.append("int")
+            qs.append(q)
+        else:
+            qs.append(["n", x, rng.randint(0, n + 1)])
+    return qs
+
+
 # --------------------------------------------------------------------------- classification
 
 
@@ -393,14 +500,21 @@ def model_request(case):
             "base": {"pars": case["base"]["pars"], "vars": case["base"]["vars"],
                      "derived": case["base"].get("derived", []),
                      "rxns": [[k, {"args": r["args"], "e": r["e"], "st": r["st"]}] for k, r in case["base"]["rxns"]]},
-            "states": case.get("states", [])}
+            "states": case.get("states", []),
+            "queries": [q[:3] for q in case.get("queries") or []]}
+
+
+def canon_Q(m):
+    return {"queries": [({"ok": q["ok"]} if "ok" in q else {"err": [q["err"][0]]}) for q in m.get("queries", [])],
+            "isos": {"ok": m.get("isos", [])}}
 
 
 def canon_M(m):
     if "err" in m:
-        return {"build": {"err": [m["err"][0]]}}
+        return dict(canon_Q(m), build={"err": [m["err"][0]]})
     o = m["ok"]
     return {
+        **canon_Q(m),
         "build": {"ok": True},
         "rxns": canon_rxns([[n, a, [[c, int(v)] for c, v in st]] for n, a, st in o["rxns"]]),
         "vars": {"ok": sorted(o["vars"])},
@@ -411,7 +525,17 @@ def canon_M(m):
     }
 
 
+def evaluate_fresh(cases, use_driver=True):
+    """one forked process per case"""
+    with mp.get_context("fork").Pool(min(16, os.cpu_count() or 4), maxtasksperchild=1) as p:
+        Rs = p.map(real_worker, cases, chunksize=1)
+    Ms = [canon_M(m) for m in driver.call_batch([model_request(c) for c in cases])] if use_driver else [None] * len(cases)
+    return list(zip(Rs, Ms))
+
+
 def evaluate(cases, use_driver=True):
+    if cases and all(c.get("mutate") for c in cases):
+        return evaluate_fresh(cases, use_driver)
     Rs = pool().map(real_worker, cases, chunksize=4)
     if use_driver:
         Ms = [canon_M(m) for m in driver.call_batch([model_request(c) for c in cases])]
@@ -439,6 +563,14 @@ def judge_case(ctx, case, R, M):
         # building must not edit the mapper's (caller-visible) label counts and maps
         ctx.judge(sub, R["attrs"], {"lv": case["lv"], "maps": case["maps"]}, None,
                   what="mapper attributes after build_model")
+    # 0. the public queries (before and after the caller edited what they returned)
+    for key in ("", "_after"):
+        if "queries" + key in R:
+            what = "public isotopomer queries" + (" after the caller edited the returned containers" if key else "")
+            for q, r, sq, mq in zip(case["queries"], R["queries" + key], spec_queries(case),
+                                    [None] * len(case["queries"]) if M is None else M["queries"]):
+                ctx.judge(dict(sub, queries=[q]), r, r if sq is None else sq, mq, what=what)
+            ctx.judge(sub, R["isos" + key], spec_isos(case), None if M is None else M["isos"], what="get_isotopomers()" + key)
     # 1. accepted / rejected with the right exception class
     if ctx.judge(sub, R["build"], sb, Mb, what="build outcome (short map -> ValueError)") != "ok":
         return
@@ -681,6 +813,20 @@ def random_case(rng):
         "maps": maps, "init": init, "init_as_int": init_as_int, "ma": ma,
         "base": {"pars": pars, "vars": [[c, str(rng.choice([1, 2, 4]))] for c in cpds], "derived": derived, "rxns": rxns},
     }
+    if rng.random() < 0.3:
+        case["queries"] = gen_queries(rng, case)
+    return case
+
+
+def query_edit_case(rng):
+    """a caller that edits the lists / dict the public queries returned, then builds (possibly on a mapper with
+    history); evaluated in a process of its own, so that state kept anywhere in the library is this case's"""
+    case = random_case(rng)
+    lv = lv_of(case)
+    case["queries"] = [["of", x] for x, _ in case["lv"]] + gen_queries(rng, case)
+    case["mutate"] = rng.choice(["reverse", "sort_desc", "clear", "pop", "append"])
+    if rng.random() < 0.3:
+        case = dict(with_history(rng, case), queries=case["queries"], mutate=case["mutate"])
     return case
 
 
@@ -780,6 +926,8 @@ def shrink(ctx, judge, evaluate_fn, limit=40):
             yield dict(c, init=[], init_as_int=[])
         if c["base"].get("derived") and not any(d in r["args"] for d, _ in c["base"]["derived"] for _, r in rx):
             yield dict(c, base=dict(c["base"], derived=[]))
+        if c.get("queries") and not c.get("mutate"):
+            yield {k: v for k, v in c.items() if k != "queries"}
         for key in ("states", "evals"):
             if len(c.get(key) or []) > 1:
                 for i in range(len(c[key])):
@@ -815,12 +963,15 @@ def setup(ctx):
         "thorough) plus too-short / too-long / out-of-range maps; random: 2-4 compounds (unlabelled, 0-3 labels), 1-3 "
         "reactions incl. homodimers, compounds on both sides, influx/efflux, derived quantities on totals, unmapped "
         "bystanders, non-mass-action rates, random maps and initial labels; each at 2 integer isotopomer states. "
-        "distinct = distinct (lv, maps, init, base); non-trivial = has a mapped reaction"
+        "round 3: public queries (get_isotopomers / get_isotopomer_of / ..._of_at_position / ..._of_with_n_labels) on 30% of the "
+        "random cases; query-edit stratum: a caller edits the containers the queries returned, then asks again and builds, one process per case. "
+        "distinct = distinct (lv, maps, init, base, queries); non-trivial = has a mapped reaction"
     )
     ctx.assumptions += [
         "base names contain no '__' (structural names render injectively)",
         "base stoichiometries are integers; rate functions are pure functions of their arguments",
-        "non-negative map indices (negative Python indices are not modelled)",
+        "non-negative map indices and query positions (negative Python indices are not modelled)",
+        "compound names are identifiers (no regular-expression metacharacters: get_isotopomers_of_at_position matches by regex)",
         "float rounding not modelled: integer states and + - * rate laws, compared exactly",
     ]
     ctx.trusted_base += ["Model.get_right_hand_side sums stoichiometry x rate (property C01)"]
@@ -846,15 +997,21 @@ def run(ctx):
     ctx.exhaustive = True
     ctx.extra_cov["exhaustive_stratum"] = len(ex)
     run_cases(ctx, ex, rng)
-    n = ctx.n(5000, 120000)
+    n = ctx.n(4000, 120000)
     if not ctx.proof_ok or ctx.drift:
         n = max(n, 10000)
         ctx.notes.append("proof/correspondence broken: widened random search for a failing input")
     run_cases(ctx, [random_case(rng) for _ in range(n)], rng)
     # the same inputs on a mapper object that has been built before with other settings
-    reuse = reuse_cases(rng, ctx.tier) + [with_history(rng, random_case(rng)) for _ in range(ctx.n(1200, 30000))]
+    reuse = reuse_cases(rng, ctx.tier) + [with_history(rng, random_case(rng)) for _ in range(ctx.n(1000, 30000))]
     ctx.extra_cov["mapper_reuse_stratum"] = len(reuse)
     run_cases(ctx, reuse, rng)
+    # last (state kept by the library would leak into later cases of the shared workers): callers that edit
+    # the containers handed out by the public queries
+    qe = [query_edit_case(rng) for _ in range(ctx.n(300, 8000))]
+    ctx.extra_cov["query_edit_stratum"] = len(qe)
+    pool()  # imports before the fork
+    run_cases(ctx, qe, rng)
     if ctx.violations:
         shrink(ctx, judge_case, evaluate)
 
